@@ -409,6 +409,9 @@ int strToInt(GenState &gs, Node *c) {
 
 int strToIntSilent(Node *c) {
   long v = std::strtol(c->tok.c_str(), NULL, 10);
+  // out-of-range literals have been reported by strToInt; keep the value
+  // negatable
+  if (v > INT_MAX) v = INT_MAX;
   return v;
 }
 
